@@ -158,7 +158,7 @@ pub fn run(ctx: &mut Ctx) {
                     s.f[0] = fb(*r.pick(&[0.0f32, -0.0, f32::NAN, -1.0, 2.0]));
                 }
                 if name == "FLOATVECTOR.SINE" && !s.i.is_empty() && s.i[0] < 0 && var % 2 == 0 {
-                    s.i[0] = -s.i[0];
+                    s.i[0] = s.i[0].checked_neg().unwrap_or(i32::MAX);
                 }
                 let mut st = build_state(&s);
                 if !crate::props::c01::envelope_ok(name, &st) {
